@@ -5,4 +5,6 @@ CONSTANT Depth
 Emit == (Len(hist) = Depth + 1) => PrintT(<<"B", ToJson(hist)>>)
 GenRoleCfgs == {Cfg("r", "r", "s"), Cfg("r", "s", "n"), Cfg("s", "s", "n"), Cfg("r", "s", "s"), Cfg("s", "n", "n"),
                 Cfg("r", "r", "r"), Cfg("b", "s", "n"), Cfg("n", "s", "r")}
+\* limit scenarios: one upstream node, two nodes competing for its single children / nephew slot
+GenLimitCfgs == {Cfg("r", "s", "s"), Cfg("s", "n", "n")}
 ====
